@@ -292,7 +292,24 @@ class ExprMixin:
         base = self.ev(e.value, p)
         if isinstance(e.value, ast.Name) and not self.spec_mode and (
                 (isinstance(base.ty, T.Obj) and e.attr not in base.fields) or isinstance(base.ty, (T.Bag, T.Set, T.Map, T.Seq)) or base.ty in (T.EMPTYLIST, T.EMPTYSET, T.EMPTYDICT)):
-            return SV(T.BOUND, obj=e.value.id, attr=e.attr)        # a method reference, to be called later through its alias
+            # a method reference, to be called later through its alias. The alias is resolved by the *name* of the container, which is only
+            # right if that name is bound once in the function (a second `xs = ...` would leave the alias on the old object)
+            fdef = getattr(self, "cur_fdef", None)
+            if fdef is not None:
+                binds = 0
+                for n in ast.walk(fdef):
+                    tg = []
+                    if isinstance(n, ast.Assign):
+                        tg = n.targets
+                    elif isinstance(n, (ast.AugAssign, ast.AnnAssign, ast.For)):
+                        tg = [n.target]
+                    for t in tg:
+                        for tt in (t.elts if isinstance(t, (ast.Tuple, ast.List)) else [t]):
+                            if isinstance(tt, ast.Name) and tt.id == e.value.id:
+                                binds += 1
+                if binds > 1:
+                    raise Unsupported(f"bound-method alias of `{e.value.id}`, which is assigned more than once")
+            return SV(T.BOUND, obj=e.value.id, attr=e.attr)
         if isinstance(base.ty, T.Obj):
             if e.attr not in base.fields:
                 raise Unsupported(f"field {e.attr} of {base.ty} is not in the declared layout")
